@@ -173,9 +173,11 @@ Law(n, x, q, o) == CASE n = "chk=generic" -> LawChkGen(x, q, o) [] n = "dirstate
                      [] n = "filtered-complete" -> LawFilteredComplete(x, q, o)
 Failed(x, q, o) == {n \in Range(LawNames) : ~Law(n, x, q, o)}
 \* which implementations break a per-implementation law (for the violation signature)
-Culprits(x, q, o) == {k \in Impls :
-                        \/ (~Filtered(q) /\ ~ApplyOk(x, Obs(o, k)))
-                        \/ (Filtered(q) /\ (~FilteredOk(x, Obs(o, k)) \/ ~CompleteOk(x, q, Obs(o, k))))}
+PerImplLaws == {"apply", "filtered-valid", "filtered-complete"}
+PerImpl(n, x, q, C) == CASE n = "apply" -> (~Filtered(q) => ApplyOk(x, C))
+                         [] n = "filtered-valid" -> (Filtered(q) => FilteredOk(x, C))
+                         [] n = "filtered-complete" -> (Filtered(q) => CompleteOk(x, q, C))
+Culprits(n, x, q, o) == {k \in Impls : ~PerImpl(n, x, q, Obs(o, k))}
 \* conformance with the declarative model (drift, not part of the property)
 DriftKeys(x, q, o) == LET r == SpecOut(x, q, FALSE) w == SpecOut(x, q, TRUE)
                       IN {k \in {"chk", "inv", "old"} : Obs(o, k) # r} \cup {k \in {"ds", "wt"} : Obs(o, k) # w}
